@@ -319,7 +319,64 @@ def rule_cmp(ck):
     ck.ob("cmp.half_open", "in_range/reference-form", ("Ge", "arg2*.begin") in ops and ("Lt", "arg2*.end") in ops, f"{ops}", ir.loc())
 
 
+def rule_closest_place(ck):
+    prog = ck.prog
+    ck.rule("mpt.closest_place", "find_closest_place: candidate lines are [line, line+1] in that order and the next line is tried only while nothing was found; a row becomes a candidate only if its line equals the needle and it is a statement; a prologue_end row of the same line is preferred; at most one place per (name, ranges) subprogram is returned")
+    f = ck.anchor("debugger::debugee::dwarf::DebugInformation::find_closest_place")
+    # (a) [line, line + 1]
+    arr = [rv for _, _, _, rv, _ in f.assigns() if rv["r"] == "agg" and rv["kind"] == "array" and len(rv["ops"]) == 2]
+    ok = False
+    d = ""
+    for rv in arr:
+        a, b = expr_of(f, rv["ops"][0]), expr_of(f, rv["ops"][1])
+        d = f"[{expr_str(a)}, {expr_str(b, 4)}]"
+        if a == ("arg", 3) and expr_str(b, 4).replace("WithOverflow", "").replace(".0", "") in ("Add(arg3, 1)",):
+            ok = True
+    ck.ob("mpt.closest_place", "lines=[line,line+1]", ok, d, f.loc())
+    # (b) stop when something was found: a switch on Vec::is_empty(result) whose non-empty edge leaves the outer loop
+    ise = [c for c in f.calls() if c.name.endswith("Vec::<T, A>::is_empty") and c.bb in f.after(c.bb)]
+    ok = False
+    for c in ise:
+        cuts = switch_cuts_on_call_result(f, lambda cc: cc.bb == c.bb, [1])  # cut `empty` edge: follow non-empty
+        reach = cut_edges_reach(f, f.succ(c.bb), {c.bb}, cuts)
+        loops_again = any(is_iter_next(x) and x.bb in reach and c.bb in f.after(x.bb) for x in f.calls())
+        if not loops_again:
+            ok = True
+    ck.ob("mpt.closest_place", "next-line-only-if-nothing-found", ok, "", f.loc())
+    # (c) candidates: pushes onto the per-unit vector are dominated by an is_stmt test and a line comparison
+    pushes = [c for c in f.calls() if c.name.endswith("Vec::<T, A>::push")]
+    stm = [c for c in f.calls() if c.name.endswith("LineRow::is_stmt")]
+    ck.floor("mpt.closest_place", "pushes in find_closest_place", len(pushes), 4)
+    cand = [p for p in pushes if any(f.dominates(s.bb, p.bb) for s in stm)]
+    ck.ob("mpt.closest_place", "candidates-are-statements", len(cand) >= 2, f"{len(cand)} of {len(pushes)} pushes are under an is_stmt test", f.loc())
+    cmps = []
+    for i, j, pl, rv, sp in f.assigns():
+        if rv["r"] == "bin" and rv["op"] in ("Ne", "Eq"):
+            sa, sb = expr_str(expr_of(f, rv["a"]), 6), expr_str(expr_of(f, rv["b"]), 6)
+            if ".line" in sa + sb:
+                cmps.append((i, rv["op"], sa, sb))
+    needle = [c for c in cmps if "possible_lines" in c[2] + c[3] or "Some.0" in c[2] + c[3] or "next(" in c[2] + c[3]]
+    ck.ob("mpt.closest_place", "candidate-line-equals-needle", len(needle) >= 1 and all(any(f.dominates(b, p.bb) for b, *_ in needle) for p in cand[:1]), f"{[(o, a[-30:], b_[-30:]) for _, o, a, b_ in needle][:2]}", f.loc())
+    pe = [c for c in f.calls() if c.name.endswith("LineRow::prolog_end")]
+    ck.ob("mpt.closest_place", "prefers-prologue_end-row", len(pe) >= 1 and any(c.bb in f.after(c.bb) for c in pe), "", f.loc())
+    # (d) one per subprogram
+    con = [c for c in f.calls() if re.search(r"HashSet::<T, S(, A)?>::contains$", c.name)]
+    ins = [c for c in f.calls() if re.search(r"HashSet::<T, S(, A)?>::insert$", c.name)]
+    ok = False
+    if con and ins:
+        c0 = con[0]
+        cuts = switch_cuts_on_call_result(f, lambda cc: cc.bb == c0.bb, [0])  # cut `not contained`: follow contained
+        reach = cut_edges_reach(f, f.succ(c0.bb), set(), cuts)
+        dup_push = [p for p in pushes if p.bb in reach and f.dominates(c0.bb, p.bb) and not any(is_iter_next(x) and x.bb in f.reach_from(f.succ(c0.bb), avoid={p.bb}) and p.bb in f.after(x.bb) for x in f.calls())]
+        ok = f.dominates(c0.bb, ins[0].bb) and not [p for p in pushes if f.dominates(ins[0].bb, p.bb) is False and f.dominates(c0.bb, p.bb) and p.bb in cut_edges_reach(f, f.succ(c0.bb), {x.bb for x in f.calls() if is_iter_next(x)}, cuts)]
+    ck.ob("mpt.closest_place", "one-place-per-subprogram", ok, "", f.loc())
+    key = [rv for _, _, _, rv, _ in f.assigns() if rv["r"] == "agg" and rv["name"].endswith("find_closest_place::Key")]
+    ok = bool(key) and set(key[0]["fields"]) == {"name", "range"}
+    ck.ob("mpt.closest_place", "subprogram-key=(name,ranges)", ok, f"{key[0]['fields'] if key else None}", f.loc())
+
+
 def run(ck):
+    rule_closest_place(ck)
     rule_flags(ck)
     rule_sort_search(ck)
     rule_scans(ck)
